@@ -187,6 +187,16 @@ def rule_panic_sites(F, ev, R, config, rule="R-PANIC-SITES"):
                 if sub in k and tk == kind:
                     hit = (sub, tk, mx, reason)
                     break
+            if hit is None and F.bodies[k].kind != "Closure":
+                # a reviewed site moved into a private helper: covered when EVERY function that calls the helper
+                # (on the cone) is covered by one and the same table entry for this kind of site
+                from rules_problem2 import local_callers
+                callers = set(c for c in local_callers(F).get(k, ()) if c in cn and c != k)
+                if callers and F.bodies[k].j.get("vis") != "pub":
+                    for sub, tk, mx, reason in TABLE:
+                        if tk == kind and all(sub in c for c in callers):
+                            hit = (sub, tk, mx, reason + " [site moved into the helper `%s`, called only from such functions]" % k.rsplit("::", 1)[-1])
+                            break
             ck = (k, kind)
             counts[ck] = counts.get(ck, 0) + 1
             if hit and counts[ck] <= hit[2]:
